@@ -129,6 +129,14 @@ PAIRS['three'] = ([(sg_mid_out, '_a'), (sg_gelu_fc, '_b'),
                    (sg_concat, '_c')], False)
 PAIRS['three_fc'] = ([(sg_fc_fc, '_a'), (sg_fc_tanh, '_b'),
                       (sg_fc_fc, '_c')], False)
+# subgraph names are optional and need not be unique in the schema: the same
+# pairs with unnamed / equally named subgraphs (pair[2] = naming)
+PAIRS['deep_then_constants/unnamed'] = (
+    [(sg_chain3, '_a'), (sg_fc_fc, '_b')], False, 'none')
+PAIRS['insertions_in_both/same_name'] = (
+    [(sg_mid_out, '_a'), (sg_concat, '_b')], False, 'same')
+PAIRS['three/unnamed'] = ([(sg_mid_out, '_a'), (sg_gelu_fc, '_b'),
+                           (sg_concat, '_c')], False, 'none')
 PAIRS_THOROUGH = {
     'four': ([(sg_fc_fc, '_a'), (sg_chain3, '_b'), (sg_mid_out, '_c'),
               (sg_gelu_fc, '_d')], False),
@@ -157,12 +165,17 @@ def all_pairs(tier=None):
 
 
 def build(pair, only=None):
-  builders, share = pair
+  builders, share = pair[0], pair[1]
+  naming = pair[2] if len(pair) > 2 else 'unique'
   mb = skeletons.ModelBuilder()
   shared = {} if share else None
   for i, (f, sfx) in enumerate(builders):
     if only is None or only == i:
       g = f(mb, sfx, shared)
+      if naming == 'none':
+        g.sg.name = None
+      elif naming == 'same':
+        g.sg.name = 'main'
       mb.signature(f'sig{sfx}', g)
   return mb.build()
 
